@@ -278,64 +278,31 @@ Fixpoint is_prefix (p l : list bytes) : bool :=
   | _ :: _, [] => false
   end.
 
-(* ------------------------------------------------------------------ input classes of the open findings *)
+(* ------------------------------------------------------------------ input class of the open finding *)
 Definition DEFAULTW : bytes := tx "DEFAULT".
-
-(* C18-F1: SocksPort unset and no default line reported *)
-Definition f1 (t : tor) (o : op) : bool :=
-  negb (is_cfg (o_api o)) && match sp t with RDefault => isnil (dflt t) | RVals _ => false end.
-
-(* the entry a TorConfig accessor takes its endpoint from *)
-Definition selected (t : tor) (o : op) : option bytes :=
-  match o_want o with
-  | None => hd_error (entries t)
-  | Some p => match o_api o with
-              | ACfgEndpoint => find (fun e => beqb (first_word e) p) (entries t)
-              | _ => None
-              end
-  end.
-
-(* C18-F2: a TorConfig accessor takes a `unix:` line that carries option words *)
-Definition f2 (t : tor) (o : op) : bool :=
-  is_cfg (o_api o) &&
-  match selected t o with Some e => prefixb UNIXP e && has_char SP e | None => false end.
 
 Definition usable (e : bytes) : bool :=
   match addr_of (first_word e) with Some _ => true | None => false end.
 
-(* C18-F3: no port asked for, the first entry is not usable, and it is either a disabled port
-   (handed out as port 0) or hides a usable later entry *)
-Definition f3 (t : tor) (o : op) : bool :=
-  is_cfg (o_api o) &&
-  match o_want o, entries t with
-  | None, e :: rest => negb (usable e) && (disabled e || existsb usable rest)
-  | _, _ => false
-  end.
-
 (* C18-F4: a TorConfig call made after Tor refused a SETCONF of an earlier call *)
 Definition f4 (rej : bool) (o : op) : bool := is_cfg (o_api o) && rej.
 
-Definition in_class (t : tor) (rej : bool) (o : op) : list bool := [f1 t o; f2 t o; f3 t o; f4 rej o].
-
-Definition orl (a b : list bool) : list bool := map (fun p => fst p || snd p) (combine a b).
-
-(* which finding classes a history touches (Tor's state is tracked as the oracle tracks it) *)
-Fixpoint flags (t : tor) (rej : bool) (ops : list op) (obs : list opobs) : list bool :=
+(* does a history touch the class (refusals are read off the observations, as the oracle reads Tor's state) *)
+Fixpoint flagged_from (t : tor) (rej : bool) (ops : list op) (obs : list opobs) : bool :=
   match ops, obs with
   | o :: ops', b :: obs' =>
-      orl (in_class t rej o) (flags (next_tor t o b) (rej || rejected o b) ops' obs')
-  | _, _ => [false; false; false; false]
+      f4 rej o || flagged_from (next_tor t o b) (rej || rejected o b) ops' obs'
+  | _, _ => false
   end.
 
-Definition flagged (t : tor) (ops : list op) (obs : list opobs) : bool :=
-  existsb (fun x => x) (flags t false ops obs).
+Definition flagged (t : tor) (ops : list op) (obs : list opobs) : bool := flagged_from t false ops obs.
 
-(* every call satisfies its clauses, or is in the input class of a known finding *)
+(* every call satisfies its clauses, or is in the input class of the known finding *)
 Fixpoint oracle_known (t : tor) (rej : bool) (ops : list op) (obs : list opobs) : bool :=
   match ops, obs with
   | [], [] => true
   | o :: ops', b :: obs' =>
-      (step_ok t o b || existsb (fun x => x) (in_class t rej o))
+      (step_ok t o b || f4 rej o)
       && oracle_known (next_tor t o b) (rej || rejected o b) ops' obs'
   | _, _ => false
   end.
